@@ -151,6 +151,7 @@ def check_tables(ctx, S, RULE):
     else:
         ctx.bad(RULE, "KeyType tables", "Display / FromStr impls not found")
     canon.check_codec(ctx, RULE)
+    keys.check_custom_codecs_paired(ctx, RULE)
 
 
 def check_shims(ctx, S, RULE, directions=("from", "try_into")):
@@ -290,4 +291,5 @@ def check_stored_as_read(ctx, S, RULE, closure=None):
                                     "value is transformed between the wire and the stored rule: <- {%s}" % ", ".join(leaf_s(vb, l) for l in lv), st["at"])
         ctx.ok(RULE, "rule elements stored as read", "%d rule payload fields examined: each is a next_element() result (possibly wrapped in Some)" % n)
     keys.check_string_newtypes(ctx, RULE, closure)
+    keys.check_newtype_serialize(ctx, RULE, closure)
     keys.check_pubkey_deser(ctx, RULE)
